@@ -783,7 +783,9 @@ def _gen_unparser(rng, q, props):
     N = 40 if q else 400
     specs = [('IPv6+UDP+CoAPs', 'IPv6-UDP-CoAP', True), ('IPv4+UDP+CoAPs', 'IPv4-UDP-CoAP', True), ('CoAPs', 'CoAP', False),
              ('IPv6p', 'IPv6-UDP-CoAP', True), ('IPv4p', 'IPv4-UDP-CoAP', True), ('IPv6+UDPp', 'IPv6-UDP-CoAP', True),
-             ('IPv6+UDP+CoAP', 'IPv6-UDP-CoAP', True), ('SCTP', 'SCTP', True)]
+             ('IPv6+UDP+CoAP', 'IPv6-UDP-CoAP', True), ('SCTP', 'SCTP', True),
+             # a header class listed twice: IPv6-in-IPv6 tunnel, every field must come back exactly once
+             ('IPv6+IPv6+UDP+CoAPs', 'tunnel6', False), ('IPv6+IPv6+UDP+CoAP', 'tunnel6', False)]
     recipes = ['v', 'n', 'vn', 'nlv', 'vlm', 'mnv', 'cv', 'cn', 'cvl', 'l']
     styles = ['small', 'mixed', 'boundary', 'big', 'repeat', 'none']
     for i in range(N):
@@ -792,7 +794,12 @@ def _gen_unparser(rng, q, props):
         if stackspec.endswith('CoAPs') and ip and (i // len(specs)) % 2 == 0 and 'c' not in rec: rec = 'c' + rec   # lengths / checksums over re-encoded options
         if 'c' in rec and not ip: rec = rec.replace('c', 'v')
         if 'C09' in props and 'C01' not in props and 'C19' not in props and 'c' not in rec: rec = 'c' + rec
-        data, _, _ = packets.gen_stack_packet(rng, cfg, correct=True, coap_style=styles[i % len(styles)])
+        if cfg == 'tunnel6':
+            inner, _, _ = packets.gen_stack_packet(rng, 'IPv6-UDP-CoAP', correct=True, coap_style=styles[i % len(styles)])
+            outer, _, _, _ = packets.build_ipv6(rng, inner, 41, True)
+            data = outer + inner
+        else:
+            data, _, _ = packets.gen_stack_packet(rng, cfg, correct=True, coap_style=styles[i % len(styles)])
         rid = abuf(rulegen.rbits(rng, rng.randrange(1, 9)), rng.choice('LLR'))
         tags = 'c01u' + (' c09u' if 'c' in rec else '')
         yield f"schc uroundtrip {stackspec} {rec} {rid} L:{packets.bits_of(data)} {rng.choice('UD-')} # {tags}"
